@@ -3043,3 +3043,7 @@ M("C01", "lonely-merge-single-path", NODE,
   "        if len(self.is_loop_kill_path) <= 1:",
   "        if len(self.is_loop_kill_path) < 1:",
   "R1.28", "a gate with one path gets a lonely merge")
+
+T("C07", "twin-break-set-not-reduced-by-scc", CLC,
+  "    break_nodes.difference_update(scc_nodes)\n", "",
+  "both sources of break nodes already exclude the events of the SCC")
